@@ -6,10 +6,12 @@ package main
 // the values that survive, every accessor, EventID() and the validity of the signatures.
 
 import (
+	"bytes"
 	"context"
 	"encoding/json"
 	"fmt"
 	"reflect"
+	"sort"
 	"strings"
 
 	gmsl "github.com/matrix-org/gomatrixserverlib"
@@ -122,6 +124,13 @@ func tamper(r *rec, orig []byte, idx int, seed int64) []byte {
 			json.RawMessage(`{"sha256":"not base64 !!"}`),
 			json.RawMessage(`{"sha512":"` + strings.Repeat("A", 43) + `"}`), // no sha256 entry
 		}[idx%4]
+	case "extra":
+		var h map[string]json.RawMessage
+		if err := json.Unmarshal(ev["hashes"], &h); err != nil {
+			panic(err)
+		}
+		h["md5"] = json.RawMessage(`"bm90IGEgaGFzaA"`)
+		ev["hashes"] = marshalRawMap(h)
 	case "remove":
 		delete(ev, "hashes")
 	case "rehash":
@@ -136,7 +145,32 @@ func tamper(r *rec, orig []byte, idx int, seed int64) []byte {
 	default:
 		panic("harness: unknown hash mode " + r.HM)
 	}
+	if idx%2 == 1 {
+		return respell(ev)
+	}
 	return marshalRawMap(ev)
+}
+
+// respell writes the top-level object with its keys in descending order and white space around the punctuation:
+// the same JSON value in a spelling a remote server is free to use (hashes and signatures are over the canonical form).
+func respell(m map[string]json.RawMessage) []byte {
+	keys := make([]string, 0, len(m))
+	for k := range m {
+		keys = append(keys, k)
+	}
+	sort.Sort(sort.Reverse(sort.StringSlice(keys)))
+	var b bytes.Buffer
+	b.WriteString("{ ")
+	for i, k := range keys {
+		if i > 0 {
+			b.WriteString(" ,\n ")
+		}
+		b.Write(q(k))
+		b.WriteString(" : ")
+		b.Write(m[k])
+	}
+	b.WriteString(" }")
+	return b.Bytes()
 }
 
 func runC04(r *rec, idx int, seed int64) *hx.Result {
